@@ -57,6 +57,9 @@ def c12_scenarios(r, tier):
                     # a second generation under the same name must be refused; a different name works
                     lines += [gen_line(ini, acct, t, n), gen_line(ids[0], acct + "b", t, n, "delay:commit:0:%d:40" % ids[0]), "holds %s" % hx(acct + "b"),
                               "relations %s" % hx(acct + "b")]
+                    # the FIRST account again, now that another one has been generated into the same wallet on the same
+                    # running instances: still held under its name, consistent and usable
+                    lines += ["holds %s" % hx(acct), "relations %s" % hx(acct), "use %s" % hx(acct)]
                 out.append(("n=%d t=%d ids=%s" % (n, t, kind), lines))
     # other refusals: unknown / forbidden client, nd wallet, more participants than peers, tampered commit replies
     ids = [1, 2, 3]
@@ -66,6 +69,14 @@ def c12_scenarios(r, tier):
                               gen_line(2, "NW/solo", 1, 1), "holds %s" % hx("NW/solo"), gen_line(2, "DW/solo", 1, 1), "holds %s" % hx("DW/solo")]))
     out.append(("too-many-participants", [cluster_line(ids), gen_line(1, "DW/x3", 3, 4), "holds %s" % hx("DW/x3"),
                                           gen_line(1, "DW/x4", 4, 5), gen_line(1, "DW/x5", 3, 5)]))
+    # several successive generations into one wallet, each from another initiator; after each, EVERY account generated so far
+    ids3 = [11, 1 << 40, (1 << 64) - 1]
+    ls = [cluster_line(ids3)]
+    for q, (t_, ini) in enumerate([(2, ids3[0]), (3, ids3[1]), (2, ids3[2])]):
+        ls.append(gen_line(ini, "DW/succ%d" % q, t_, 3))
+        for q2 in range(q + 1):
+            ls += ["holds %s" % hx("DW/succ%d" % q2), "relations %s" % hx("DW/succ%d" % q2), "use %s" % hx("DW/succ%d" % q2)]
+    out.append(("successive-generations", ls))
     for f in ("commitpub:commit:0:2", "commitsig:commit:0:3"):
         out.append(("tampered-commit-reply " + f, [cluster_line(ids), gen_line(1, "DW/x6", 2, 3, f)]))
     # the same over the real transport (dirk's gRPC sender, mutual TLS, the receiver handlers behind the client-info interceptor)
@@ -316,11 +327,18 @@ def c17_scenarios(r, tier):
         else:
             tag, lines = tpl
             out.append((tag, [cluster_line(ids, TO)] + lines))
+            # the same lifecycle with callers whose requests carry a deadline (far beyond / well inside the generation
+            # timeout): the configured timeout alone decides how long a generation lives
+            if any(l.startswith("sleep") for l in lines):
+                out.append((tag + "+ctxdl-long", [cluster_line(ids, TO), "ctxdl 60000"] + lines))
+                out.append((tag + "+ctxdl-short", [cluster_line(ids, TO), "ctxdl 1500"] + lines))
     # random sequences whose outcome does not depend on map iteration order: executes only when every participant
     # is prepared (or none of the higher ones is), sleeps bounded
     for s in range(n_rand):
         rr = r.fork()
         lines = [cluster_line(ids, TO)]
+        if rr.chance(0.3):
+            lines.append("ctxdl %d" % rr.choice([60000, 1500]))
         prepared = {A: set(), B: set()}
         executed = {A: set(), B: set()}
         dirty = {A: False, B: False}
@@ -424,15 +442,25 @@ def c14_scenarios(r, tier):
             for i in ids:
                 for _ in range(r.below(3)):
                     events.append((0, i, stale))
+            # a duty that arrives as the FIRST entry of a batch of two, addressed to an account that does not exist, followed by a
+            # harmless later attestation of the real account: nothing of that batch may end in a signature over the duty
+            if kind != "proposal":
+                for which, d in ((1, d1), (2, d2)):
+                    for i in r.shuffle(ids)[:r.below(3)]:
+                        events.append((3, i, (d, att9(base + 8, base + 9, 2))))
             events = r.shuffle(events)
             # and once in this very order on one instance: first duty, stale request, conflicting duty
             if r.chance(0.7):
                 ix = r.choice(ids)
                 events += [(1, ix, d1), (0, ix, stale), (2, ix, d2)] if r.chance(0.5) else [(2, ix, d2), (0, ix, stale), (1, ix, d1)]
             i1, i2 = [], []
+            w0 = len(lines)
             for which, i, d in events:
                 if which == 0:
                     lines.append("%s %d %s %s" % (d[0], i, hx(acct), d[1]))
+                    continue
+                if which == 3:
+                    lines.append("iattsu %d %s %s %s %s" % (i, hx("DW/Nobody"), d[0][1], hx(acct), d[1]))
                     continue
                 (i1 if which == 1 else i2).append(len(lines))
                 # attestations reach an instance through either endpoint (single, or a batch of one)
@@ -443,7 +471,7 @@ def c14_scenarios(r, tier):
                     lines.append("iatts2 %d %s %s %s %s" % (i, hx(acct), d[1], hx(acct2), att9(low[i], low[i] + 1, 2)))
                 else:
                     lines.append("%s %d %s %s" % (opn, i, hx(acct), d[1]))
-            pairs.append((kind, d1, d2, i1, i2))
+            pairs.append((kind, d1, d2, i1, i2, (w0, len(lines))))
         # a request whose write stalls while its client gives up (X), a duty further on (A) while X stalls, and — after X's
         # write has landed — the conflicting duty (B): one instance must not sign both A and B
         ix = r.choice(ids)
@@ -453,6 +481,7 @@ def c14_scenarios(r, tier):
         ia = len(lines); lines.append("iatt %d %s %s" % (ix, hx(acct), dA[1]))
         lines.append("sleep 320")
         ib = len(lines); lines.append("iatt %d %s %s" % (ix, hx(acct), dB[1]))
-        pairs.append(("stalled-write", dA, dB, [ia], [ib]))
+        pairs.append(("stalled-write", dA, dB, [ia], [ib], (ia - 1, len(lines))))
+        lines.append("sharepubs %s" % hx(acct))
         out.append(("n=%d t=%d" % (n, t), n, t, acct, lines, pairs))
     return out
